@@ -149,7 +149,7 @@ FAULT_ASSUME = [
     'fault personalities are emulations at the DBAPI seam: deadlock-keep = '
     'lock wait timeout (transaction kept), deadlock-rollback = MySQL 1213 '
     '(server rolled the transaction back), dupkey = lost INSERT race (the '
-    'winning row becomes visible when the victim transaction ends), connlost '
+    'winning row - the very same INSERT, executed by a side connection - becomes visible when the victim transaction ends; the clean-failure baseline is pre-state + winner rows), connlost '
     '= disconnect, dberror = other server error, commit-fail = commit '
     'rejected and rolled back',
     'ambiguous commits (applied but reported failed) are not injected',
@@ -224,7 +224,7 @@ def _c19(tier):
 def _c02(tier):
     q = tier == 'quick'
     return {
-        'runs': [('cand_claim', {}, 1000 if q else 9000)],
+        'runs': [('cand_claim', {}, 800 if q else 9000)],
         'level': 'exploration',
         'rule': 'a seeded set-up history (12-32 requests: nested and sharing '
         'providers, inventories with reserved/ratio/unit constraints, prior '
@@ -247,7 +247,7 @@ def _c02(tier):
 def _c20(tier):
     q = tier == 'quick'
     return {
-        'runs': [('cand_limit', {}, 450 if q else 5000)],
+        'runs': [('cand_limit', {}, 320 if q else 5000)],
         'level': 'exploration',
         'rule': 'states and queries as for C02; for each (state, query) the '
         'unlimited result M with randomisation off, then every limit 1..|M|+1 '
